@@ -45,6 +45,11 @@ class World(object):
         def fake_open(client, url, data=None, method=None):
             from PIL import Image
             q = {k.lower(): v[0] for k, v in parse_qs(urlparse(url).query).items()}
+            if q.get('request', '').lower() in ('getfeatureinfo', 'feature_info'):
+                b = io.BytesIO(b'feature info of the upstream')
+                b.headers = {'Content-type': 'text/plain'}
+                b.code = 200
+                return b
             b = io.BytesIO()
             Image.new('RGB', (int(q.get('width', 256)), int(q.get('height', 256))), (0, 200, 0)).save(b, 'PNG')
             b.seek(0)
@@ -55,10 +60,13 @@ class World(object):
         http.HTTPClient.open = fake_open
         conf = {'services': {'wms': {'md': {'title': 't'}, 'srs': list(SRS), 'image_formats': list(FORMATS)}},
                 'layers': [{'name': 'grp', 'title': 'g', 'layers': [{'name': 'lay', 'title': 'l', 'sources': ['c']},
+                                                                   {'name': 'qry', 'title': 'q', 'sources': ['q']},
                                                                    {'name': 'dir', 'title': 'd', 'sources': ['s']}]}],
                 'caches': {'c': {'grids': ['GLOBAL_MERCATOR'], 'sources': ['s'], 'format': 'image/png',
                                  'cache': {'type': 'file', 'directory': os.path.join(d, 'cache')}}},
-                'sources': {'s': {'type': 'wms', 'req': {'url': 'http://up.invalid/s', 'layers': 'x'}}},
+                # 'lay' (cached) is queryable through its source, 'dir' (source without feature info) is not
+                'sources': {'s': {'type': 'wms', 'req': {'url': 'http://up.invalid/s', 'layers': 'x'}},
+                            'q': {'type': 'wms', 'req': {'url': 'http://up.invalid/q', 'layers': 'x'}, 'wms_opts': {'featureinfo': True}}},
                 'globals': {'cache': {'base_dir': d, 'lock_dir': d + '/l', 'tile_lock_dir': d + '/tl'}, 'image': {'paletted': False}}}
         pc = ProxyConfiguration(conf, conf_base_dir=d, seed=False, renderd=False)
         self.app = TestApp(MapProxyApp(pc.configured_services(), pc.base_config))
@@ -82,7 +90,33 @@ class World(object):
         for e in x.findall('.//%sLayer/%s' % (p, p + ('CRS' if ver == '1.3.0' else 'SRS')), ns):
             srss |= set((e.text or '').split())
         lays = {e.text for e in x.findall('.//%sLayer/%sName' % (p, p), ns)}
-        return {'fmt': sorted(set(fmts)), 'srs': sorted(srss), 'lay': sorted(lays)}
+        qlays = {e.find('%sName' % p, ns).text for e in x.findall('.//%sLayer' % p, ns)
+                 if e.find('%sName' % p, ns) is not None and e.get('queryable') == '1'}
+        return {'fmt': sorted(set(fmts)), 'srs': sorted(srss), 'lay': sorted(lays), 'qlay': sorted(qlays)}
+
+    def getinfo(self, ver, lay, ql):
+        q = 'SERVICE=WMS&REQUEST=%s&%s=%s&LAYERS=%s&QUERY_LAYERS=%s&STYLES=&%s=EPSG:3857&BBOX=%s&WIDTH=%d&HEIGHT=%d&FORMAT=image/png&%s' % (
+            'feature_info' if ver == '1.0.0' else 'GetFeatureInfo', 'WMTVER' if ver == '1.0.0' else 'VERSION', ver, lay, ql,
+            'CRS' if ver == '1.3.0' else 'SRS', ','.join(map(str, BBOX['EPSG:3857'])), W, H, 'I=5&J=5' if ver == '1.3.0' else 'X=5&Y=5')
+        ev = {'op': 'info', 'v': vkey(ver), 'f': '-', 's': '-', 'l': lay, 'ql': ql, 'ct': '-'}
+        import logging
+        logging.disable(logging.CRITICAL)
+        try:
+            r = self.app.get('/service?' + q, status='*', expect_errors=True)
+        except Exception as ex:
+            ev['out'] = 'raised'
+            ev['detail'] = str(ex)[-160:]
+            return ev
+        finally:
+            logging.disable(logging.NOTSET)
+        if b'ServiceException' in r.body or b'WMTException' in r.body:
+            ev['out'] = 'exception'
+        elif r.status_int == 200 and b'feature info of the upstream' in r.body:
+            ev['out'] = 'info'
+        else:
+            ev['out'] = 'error:%d' % r.status_int
+            ev['detail'] = r.text[:100]
+        return ev
 
     def getmap(self, ver, fmt, srs, lay):
         from PIL import Image
@@ -142,6 +176,12 @@ def run(ctx):
                             continue
                         events.append(w.getmap(v, fmt, srs, lay))
                         ctx.count((v, fmt, srs, lay))
+            # GetFeatureInfo: every listed layer as LAYERS and QUERY_LAYERS, and one that is not listed
+            for lay in a['lay'] + ['nolayer']:
+                for ql in a['lay'] + ['nolayer']:
+                    if lay == ql or lay == 'grp' or (lay == 'nolayer') != (ql == 'nolayer') and 'nolayer' in (lay, ql):
+                        events.append(w.getinfo(v, lay, ql))
+                        ctx.count((v, 'info', lay, ql))
             # spellings that are close to a listed format but are not listed
             for fmt in UNLISTED:
                 if fmt not in a['fmt']:
@@ -157,12 +197,12 @@ def run(ctx):
     alias = {vkey(v): ({f: f for f in FORMATS} if v != '1.0.0' else
                        {'image/png': 'PNG', 'image/jpeg': 'JPEG', 'image/gif': 'GIF', 'image/tiff': 'TIFF'}) for v in VERSIONS}
     consts = dict(Ver={vkey(v) for v in VERSIONS}, Adv={k: {kk: set(vv) for kk, vv in a.items()} for k, a in adv.items()},
-                  Conf={'fmt': set(FORMATS), 'srs': set(SRS), 'lay': {'grp', 'lay', 'dir'}}, Alias=alias, Mime=mime)
+                  Conf={'fmt': set(FORMATS), 'srs': set(SRS), 'lay': {'grp', 'lay', 'dir', 'qry'}}, Alias=alias, Mime=mime)
     d = ctx.sub('tr')
     tf = os.path.join(d, 'batch.json')
     with open(tf, 'w') as f:
         json.dump([[{k: v for k, v in e.items() if k != 'detail'} for e in events]], f)
-    mp, cp = tlc.write_mc(d, 'Trace_WmsCaps', 'MC_T', consts, spec='TraceSpec', properties=['AdvertisedIsServed'], post='TraceAccepted')
+    mp, cp = tlc.write_mc(d, 'Trace_WmsCaps', 'MC_T', consts, spec='TraceSpec', properties=['AdvertisedIsServed', 'QueryableIsServed'], post='TraceAccepted')
     r = tlc.run(mp, cp, d, workers=1, coverage=False, env={'TRACE_FILE': tf}, timeout=900)
     ctx.cov['traces_validated_against_impl'] += 1
     ctx.cov['states'] += r.distinct
@@ -183,6 +223,18 @@ def run(ctx):
     k = matched
     # report every kind of failing request once (the trace stops at the first one: check the rest directly)
     for e in events:
+        if e['op'] == 'info':
+            a = adv[e['v']]
+            want = 'info' if (e['l'] in a['lay'] and e['ql'] in a['qlay']) else 'exception'
+            if e['out'] != want:
+                sig = {'kind': 'queryable-not-served' if want == 'info' else 'unlisted-query-layer-not-refused', 'out': e['out'].split(':')[0]}
+                key = json.dumps(sig, sort_keys=True)
+                if key not in seen:
+                    seen.add(key)
+                    ctx.violation(sig, 'WMS %s GetFeatureInfo LAYERS=%s QUERY_LAYERS=%s is answered with %s %s (expected: %s)' % (
+                        e['v'], e['l'], e['ql'], e['out'], e.get('detail', ''),
+                        'the feature info' if want == 'info' else 'a service exception - the layer is not listed, or not marked queryable'), {'request': e})
+            continue
         want = 'image' if (e['f'] in adv[e['v']]['fmt'] and e['s'] in adv[e['v']]['srs'] and e['l'] in adv[e['v']]['lay']) else 'exception'
         if e['out'] != want:
             sig = {'kind': 'advertised-not-served' if want == 'image' else 'unlisted-not-refused', 'format': e['f'] if want == 'image' else '-',
@@ -200,7 +252,8 @@ def run(ctx):
         raise tlc.MachineryError('vacuity: no refused or no served request')
     ctx.sample({'kind': 'requests for the combinations listed by the capabilities', 'advertised': adv, 'first': events[:3]})
     ctx.assumptions += ['one configuration (cache layer, direct layer, group; five formats; six reference systems incl. CRS:84 and a '
-                        'north/east axis EPSG code); GetMap only (GetFeatureInfo / GetLegendGraphic formats are C18 matter)']
+                        'north/east axis EPSG code); GetMap over formats and reference systems, GetFeatureInfo over layers and query layers (info formats and '
+                        'GetLegendGraphic are C18 matter)']
     return ctx.finish('model_checking', 'every combination of layer x format x reference system listed by the capabilities of WMS 1.0.0 / 1.1.0 / '
                       '1.1.1 / 1.3.0 (and one unlisted value per dimension) is requested from a real application; TLC validates the '
                       'answers against WmsCaps.tla and compares listed with configured sets')
